@@ -2,12 +2,14 @@
 #[path = "../../fv-write/src/synth.rs"]
 mod synth;
 mod c17;
+mod ser;
 
 fn main() {
     fvcore::quiet_panics();
     let args: Vec<String> = std::env::args().skip(1).collect();
     match args.first().map(|s| s.as_str()) {
         Some("c17") => c17::main(&args[1..]),
+        Some("ser") => ser::main(&args[1..]),
         _ => {
             eprintln!("usage: fv-subset c17 ...");
             std::process::exit(2)
